@@ -21,6 +21,14 @@ server is restarted from a copy of it, the follower is sampled.
                  compared with TLC's expectation.
 A stall of the harness or the server (its own 5 ms ticker, round trips of the polls) never becomes a
 verdict: the run is repeated, and a repeated stall is INFRA.
+
+Program families: the breadth-first covers (two collections with one object each incl. RENAME; one
+collection with two objects, four commands; hooks and channels), random programs (TTL 0-4 s), bursts
+(12 collections expiring in one sweep: the delay must not grow with the number of collections) and
+limbo programs (EXPIRE / PERSIST of objects whose deadline has just passed, with a follower: the
+situation in which a follower that expires on its own clock loses an object for good - found by this
+check on the pinned tree and repaired by the `fix:` commit "a follower does not expire objects and
+hooks on its own clock").
 """
 import json
 import os
@@ -118,18 +126,19 @@ def read_programs(path):
 def generate(ctx):
     """Breadth-first transition covers: two collections with one object each (incl. RENAME); one collection with two
     objects (four commands); hooks and channels.  The three TLC runs go side by side."""
-    cfgs = [("gen_obj", ["k1", "k2"], ctx.pick(["a"], ["a", "b"]), [], [], ctx.pick([1, 20], [1, 3, 20]), 3, ctx.pick(4, 5)),
-            ("gen_two", ["k1"], ["a", "b"], [], [], [1, 20], 4, ctx.pick(3, 4)),
-            ("gen_hook", ["k1"], ["a"], ["h1"], ["c1"], [1, 3, 20], ctx.pick(2, 3), 5)]
+    allops = ["set", "expire", "persist", "fset", "jset", "del", "rename", "sethook", "delhook"]
+    cfgs = [("gen_obj", ["k1", "k2"], ctx.pick(["a"], ["a", "b"]), [], [], ctx.pick([1, 20], [1, 3, 20]), 3, ctx.pick(4, 5), allops),
+            ("gen_two", ["k1"], ["a", "b"], [], [], [1, 20], 4, ctx.pick(3, 4), ctx.pick(["set", "expire", "persist", "del"], allops)),
+            ("gen_hook", ["k1"], ["a"], ["h1"], ["c1"], [1, 3, 20], ctx.pick(2, 3), 5, allops)]
     covers = [None] * len(cfgs)
     stats = {"states": 0, "transitions": 0}
     errors = []
 
     def one(n):
         try:
-            name, keys, ids, hooks, chans, ttls, maxops, maxnow = cfgs[n]
-            r = ctx.tlc(name, MODS[:2], mc(name, "ExpireGen", keys, ids, hooks, chans, ttls),
-                        "SPECIFICATION GenSpec\n" + consts(MaxNow=maxnow, MaxOps=maxops, MarginP=3, MarginA=10, Horizon=12) +
+            name, keys, ids, hooks, chans, ttls, maxops, maxnow, ops = cfgs[n]
+            r = ctx.tlc(name, MODS[:2], mc(name, "ExpireGen", keys, ids, hooks, chans, ttls).replace("====", "MCOps == %s\n====" % tla_set(ops)),
+                        "SPECIFICATION GenSpec\n" + consts(MaxNow=maxnow, MaxOps=maxops, MarginP=3, MarginA=10, Horizon=12, GenOps="<- MCOps") +
                         "VIEW GenView\nINVARIANT NeverEarly Bounded NoStaleTimer ExpiryIsLoggedDel\nPROPERTY Emit\n",
                         workers=1, timeout=2400)
             if not r["ok"]:
@@ -163,13 +172,14 @@ SIM_TTLS = [0, 1, 2, 3, 5, 8, 12, 15, 25, 40]
 KEYS12 = ["k%d" % n for n in range(1, 13)]
 W_MIX = [22, 32, 46, 54, 60, 66, 76, 84, 92, 95]       # set+EX, set, expire, persist, fset, jset, del, rename, sethook+EX, sethook | delhook
 W_BURST = [80, 82, 92, 93, 94, 95, 98, 98, 99, 99]     # nearly all SET EX / EXPIRE with one TTL
+W_LIMBO = [35, 38, 63, 88, 90, 92, 96, 96, 98, 99]     # short TTLs, then EXPIRE / PERSIST around the deadline
 
 
 def simulate(ctx, name, num, maxops, maxnow, keys=("k1", "k2"), ids=("a", "b"), ttls=SIM_TTLS, tickpct=55, weights=W_MIX):
     text = mc(name, "ExpireSim", list(keys), list(ids), ["h1"], ["c1"], ttls).replace(
         "====", "MCW == <<%s>>\n====" % ", ".join(str(w) for w in weights))
     r = ctx.tlc(name, MODS[:3], text,
-                "SPECIFICATION SimSpec\n" + consts(MaxNow=maxnow, MaxOps=maxops, MarginP=3, MarginA=10, Horizon=12, TickPct=tickpct, W="<- MCW") +
+                "SPECIFICATION SimSpec\n" + consts(MaxNow=maxnow, MaxOps=maxops, MarginP=3, MarginA=10, Horizon=12, TickPct=tickpct, W="<- MCW", GenOps="raw:{}") +
                 "INVARIANT NeverEarly Bounded NoStaleTimer ExpiryIsLoggedDel TTLReports\n",
                 workers=1, simulate=num, depth=400, timeout=900)
     if not r["ok"]:
@@ -219,14 +229,14 @@ def dress(progs, rng, follower_pct, restart_pct, sc0=0):
 
 
 # ------------------------------------------------------------------------------- execution and judgement
-def execute(ctx, progs, label, par=PAR):
+def execute(ctx, progs, label, par=PAR, spin=False):
     src = os.path.join(ctx.scratch, "progs_%s.ndjson" % label)
     with open(src, "w") as f:
         for p in progs:
             f.write(json.dumps(p) + "\n")
     trace = os.path.join(ctx.scratch, "trace_%s.ndjson" % label)
     rc, js, err = ctx.harness(["expire-run", "-in", src, "-out", trace, "-par", str(par), "-unit", str(UNIT_MS),
-                               "-dir", os.path.join(ctx.scratch, "srv_" + label)], timeout=3000)
+                               "-dir", os.path.join(ctx.scratch, "srv_" + label)] + (["-spinlock"] if spin else []), timeout=3000)
     runs = {r["sc"]: r for r in js["runs"]}
     if len(runs) != len(progs):
         raise common.Infra("expire-run %s: %d of %d programs ran" % (label, len(runs), len(progs)))
@@ -320,11 +330,11 @@ def describe(rej, prog):
         json.dumps(ev, sort_keys=True)[:700], json.dumps(rej["exp"], sort_keys=True)[:500])
 
 
-def run_and_judge(ctx, progs, label, report=True, retries=2):
+def run_and_judge(ctx, progs, label, report=True, retries=2, spin=False):
     """Execute programs, let TLC judge the traces, compare the probes. Returns stats."""
     by_prog = {p["sc"]: p for p in progs}
     t0 = time.time()
-    trace, runs = execute(ctx, progs, label)
+    trace, runs = execute(ctx, progs, label, spin=spin)
     t1 = time.time()
     by_sc = split_trace(trace)
     wide = {p["sc"] for p in progs if any(s.get(x) in KEYS12[2:] for s in p["h"] for x in ("k", "k2"))}
@@ -508,32 +518,37 @@ def run(ctx):
     vthread.start()
     try:
         covers, gstats = generate(ctx)
-        cover_obj, nshapes_obj = pick_cover(covers[0], ctx.pick(80, 800), rng)
-        cover_two, nshapes_two = pick_cover(covers[1], ctx.pick(60, 800), rng)
-        cover_hook, nshapes_hook = pick_cover(covers[2], ctx.pick(30, 300), rng)
-        sims, rsim = simulate(ctx, "sim", ctx.pick(100, 500), ctx.pick(10, 14), ctx.pick(24, 30))
+        cover_obj, nshapes_obj = pick_cover(covers[0], ctx.pick(60, 500), rng)
+        cover_two, nshapes_two = pick_cover(covers[1], ctx.pick(50, 500), rng)
+        cover_hook, nshapes_hook = pick_cover(covers[2], ctx.pick(30, 200), rng)
+        sims, rsim = simulate(ctx, "sim", ctx.pick(80, 400), ctx.pick(10, 14), ctx.pick(24, 30))
         # bursts: many collections whose objects expire in the same sweep (one TTL, hardly any time between the commands)
-        burst, _ = simulate(ctx, "burst", ctx.pick(12, 60), 24, 6, keys=KEYS12, ids=("a",), ttls=[5], tickpct=5, weights=W_BURST)
+        burst, _ = simulate(ctx, "burst", ctx.pick(10, 40), 24, 6, keys=KEYS12, ids=("a",), ttls=[5], tickpct=5, weights=W_BURST)
+        # limbo: EXPIRE / PERSIST of objects whose deadline has just passed (served until swept), each with a follower from the start
+        limbo, _ = simulate(ctx, "limbo", ctx.pick(30, 160), 12, 14, keys=("k1",), ids=("a", "b"), ttls=[1, 2], tickpct=50, weights=W_LIMBO)
         cover = cover_obj + cover_two + cover_hook
         progs = list(dress(cover, rng, follower_pct=20, restart_pct=ctx.pick(50, 100)))
         progs += dress(sims, rng, follower_pct=40, restart_pct=ctx.pick(60, 100), sc0=len(progs))
         progs += dress(burst, rng, follower_pct=0, restart_pct=50, sc0=len(progs))
+        progs += dress(limbo, rng, follower_pct=0, restart_pct=30, sc0=len(progs))
+        for p in limbo:
+            p["attach"] = 0
         rng.shuffle(progs)
         nshapes = nshapes_obj + nshapes_two + nshapes_hook
-        ctx.log("programs: %d stale-timer / expiry programs of the cover (%d shapes), %d random, %d bursts; %d with a follower" % (
-            len(cover), nshapes, len(sims), len(burst), sum(p["attach"] >= 0 for p in progs)))
+        ctx.log("programs: %d stale-timer / expiry programs of the cover (%d shapes), %d random, %d bursts, %d limbo; %d with a follower" % (
+            len(cover), nshapes, len(sims), len(burst), len(limbo), sum(p["attach"] >= 0 for p in progs)))
         res = run_and_judge(ctx, progs, "main")
         extra = []
         if not ctx.quick:
             # more random programs (fresh TLC seeds) while the budget lasts
             seed0, rnd = ctx.seed, 0
             try:
-                while time.time() - ctx.t0 < 15 * 60 and rnd < 6:
+                while time.time() - ctx.t0 < 14 * 60 and rnd < 6:
                     rnd += 1
                     ctx.seed = seed0 * 1000 + rnd
-                    more, _ = simulate(ctx, "sim%d" % rnd, 400, 14, 30)
+                    more, _ = simulate(ctx, "sim%d" % rnd, 300, 14, 30)
                     more = dress(more, random.Random(ctx.seed), follower_pct=40, restart_pct=100, sc0=100000 * rnd)
-                    extra.append(run_and_judge(ctx, more, "more%d" % rnd))
+                    extra.append(run_and_judge(ctx, more, "more%d" % rnd, spin=(rnd % 2 == 1)))      # odd rounds: spinlock build
                     progs += more
             finally:
                 ctx.seed = seed0
